@@ -595,6 +595,49 @@ func ruleLitCtor(c *Ctx) []Obligation {
 			o.req(content == ssa.Value(f.Params[1]), fname(f), "content is the parameter, unmodified", tl.pos, "content = %s", a.Desc(tl.content))
 		}
 	}
+	// the other hand-written token constructors: text tokens hold the caller's text, unmodified
+	type exp struct {
+		typ   string
+		param int    // index of the parameter that must be the content (-1: constant)
+		konst string // expected constant content
+	}
+	wantTok := map[string][]exp{
+		"Id":   {{"identifierToken", 1, ""}},
+		"Op":   {{"operatorToken", 1, ""}},
+		"Dot":  {{"delimiterToken", -1, "."}, {"identifierToken", 1, ""}},
+		"Line": {{"layoutToken", -1, "\n"}},
+		"Qual": {{"packageToken", 1, ""}, {"identifierToken", 2, ""}},
+	}
+	byFn := map[string][]tokenLit{}
+	for _, tl := range c.tokenLits() {
+		f := tl.fn
+		if f.Signature.Recv() == nil || types.TypeString(f.Signature.Recv().Type(), shortQual) != "*jen.Statement" {
+			continue
+		}
+		if _, ok := wantTok[f.Name()]; ok {
+			byFn[f.Name()] = append(byFn[f.Name()], tl)
+		}
+	}
+	for name, exps := range wantTok {
+		tls := byFn[name]
+		sort.Slice(tls, func(i, j int) bool { return tls[i].pos < tls[j].pos })
+		if len(tls) != len(exps) {
+			o.add(Violated, "(*jen.Statement)."+name, "builds its token(s)", token.NoPos, true, "expected %d token literal(s), found %d", len(exps), len(tls))
+			continue
+		}
+		for i, e := range exps {
+			tl := tls[i]
+			a := c.FA(tl.fn)
+			okc := tl.typOK && tl.typ == c.tokenTypeConst(e.typ)
+			if e.param >= 0 {
+				okc = okc && tl.content != nil && stripConv(tl.content) == ssa.Value(tl.fn.Params[e.param])
+			} else {
+				sv, isS := constString(tl.content)
+				okc = okc && isS && sv == e.konst
+			}
+			o.req(okc, fname(tl.fn), fmt.Sprintf("token #%d is a %s holding the caller's text unmodified", i+1, e.typ), tl.pos, "typ=%q content=%s", tl.typ, a.Desc(tl.content))
+		}
+	}
 	for n := range want {
 		if !seen[n] {
 			o.add(Violated, "(*jen.Statement)."+n, "literal constructor present", token.NoPos, true, "constructor not found or it builds no token literal")
